@@ -231,7 +231,11 @@ where
                     let node_len = bytes.get_u64() as usize;
                     let lane_len = bytes.get_u64() as usize;
 
-                    if bytes.remaining() < host_len + node_len + lane_len + ID_LEN {
+                    let required = host_len
+                        .checked_add(node_len)
+                        .and_then(|l| l.checked_add(lane_len))
+                        .and_then(|l| l.checked_add(ID_LEN));
+                    if !matches!(required, Some(l) if bytes.remaining() >= l) {
                         *state = DecoderState::ReadingAddressedHeader(flags);
                         break Ok(None);
                     }
@@ -284,7 +288,10 @@ where
                     let node_len = bytes.get_u64() as usize;
                     let lane_len = bytes.get_u64() as usize;
 
-                    if bytes.remaining() < host_len + node_len + lane_len {
+                    let required = host_len
+                        .checked_add(node_len)
+                        .and_then(|l| l.checked_add(lane_len));
+                    if !matches!(required, Some(l) if bytes.remaining() >= l) {
                         *state = DecoderState::ReadingAddressedHeader(flags);
                         break Ok(None);
                     }
